@@ -21,6 +21,7 @@ use crate::{
 use boa_ast::{
     Expression, Keyword, Punctuator, Span, Spanned,
     expression::{
+        OptionalOperationKind,
         access::PropertyAccess,
         operator::{Unary, unary::UnaryOp},
     },
@@ -81,6 +82,20 @@ where
                         )));
                     }
                     Expression::PropertyAccess(PropertyAccess::Private(_)) => {
+                        return Err(Error::lex(LexError::Syntax(
+                            "cannot delete private fields".into(),
+                            position,
+                        )));
+                    }
+                    // `delete a?.#b`, `delete a?.b.#c`
+                    Expression::Optional(optional)
+                        if optional.chain().last().is_some_and(|operation| {
+                            matches!(
+                                operation.kind(),
+                                OptionalOperationKind::PrivatePropertyAccess { .. }
+                            )
+                        }) =>
+                    {
                         return Err(Error::lex(LexError::Syntax(
                             "cannot delete private fields".into(),
                             position,
